@@ -524,6 +524,75 @@ func (m *Model) mutate(t *rapid.T, root []*Node) (string, string, bool) {
 	return text(root), kind, n.underUnionOrList
 }
 
+// illSharedFragment builds an ill-formed query around ONE named fragment that is spread at
+// two positions of different object types: valid where it is visited first, naming a field
+// the second type does not have (thunder applies a fragment under an object parent whatever
+// its type condition says, so that part is applicable and must be rejected).
+func (m *Model) illSharedFragment(t *rapid.T) (string, bool) {
+	type root struct {
+		fd  FieldDef
+		typ string
+	}
+	var roots []root
+	for _, f := range m.Types[m.Query].Fields {
+		if strings.HasPrefix(f.Name, "__") || f.Name == "_federation" {
+			continue
+		}
+		if n := f.Type.named(); m.Types[n.Name] != nil && m.Types[n.Name].Kind == "OBJECT" {
+			roots = append(roots, root{f, n.Name})
+		}
+	}
+	if len(roots) < 2 {
+		return "", false
+	}
+	r1 := roots[rapid.IntRange(0, len(roots)-1).Draw(t, "sfr1")]
+	var others []root
+	for _, r := range roots {
+		if r.typ != r1.typ {
+			others = append(others, r)
+		}
+	}
+	if len(others) == 0 {
+		return "", false
+	}
+	r2 := others[rapid.IntRange(0, len(others)-1).Draw(t, "sfr2")]
+	has2 := map[string]bool{}
+	for _, f := range m.Types[r2.typ].Fields {
+		has2[f.Name] = true
+	}
+	var only1 []FieldDef
+	for _, f := range m.Types[r1.typ].Fields {
+		if !has2[f.Name] && !strings.HasPrefix(f.Name, "__") {
+			only1 = append(only1, f)
+		}
+	}
+	if len(only1) == 0 {
+		return "", false
+	}
+	x := only1[rapid.IntRange(0, len(only1)-1).Draw(t, "sfx")]
+	call := func(f FieldDef) string {
+		var args []string
+		for _, a := range f.Args {
+			if a.Type.Kind == "NON_NULL" {
+				args = append(args, a.Name+": "+m.literal(t, a.Type, 0))
+			}
+		}
+		if len(args) == 0 {
+			return f.Name
+		}
+		return f.Name + "(" + strings.Join(args, ", ") + ")"
+	}
+	body := call(x)
+	if k := m.Types[x.Type.named().Name].Kind; k == "OBJECT" || k == "UNION" {
+		body += " { __typename }"
+	}
+	extra := ""
+	if rapid.Bool().Draw(t, "sfextra") {
+		extra = " __typename"
+	}
+	return fmt.Sprintf("{ k1: %s { ...SF%s } k2: %s {%s ...SF } } fragment SF on %s { %s }", call(r1.fd), extra, call(r2.fd), extra, r1.typ, body), true
+}
+
 type Case struct {
 	Spec  *world.Spec `json:"spec"`
 	Modes world.Modes `json:"modes"`
@@ -549,6 +618,19 @@ func genModes(t *rapid.T, s *world.Spec) world.Modes {
 		}
 	}
 	return m
+}
+
+// validate runs Parse and PrepareQuery only (ill-formed variants are never executed: a query
+// that validation wrongly accepts may crash the executor's goroutines).
+func validate(b *world.Bound, q string) (string, error) {
+	pq, err := graphql.Parse(q, map[string]interface{}{})
+	if err != nil {
+		return "parse", err
+	}
+	if err := graphql.PrepareQuery(context.Background(), b.Schema.Query, pq.SelectionSet); err != nil {
+		return "prepare", err
+	}
+	return "execute", nil
 }
 
 func exec(b *world.Bound, q string) (interface{}, string, error) {
@@ -644,7 +726,7 @@ func TestAdvertised(t *testing.T) {
 				continue
 			}
 			c.Ill, c.IllKind = ill, kind
-			_, stage, err := exec(b, ill)
+			stage, err := validate(b, ill)
 			if err == nil || stage == "execute" {
 				p := rec.Violate("TestAdvertised", c, fmt.Sprintf("illformed-accepted: %s variant passed validation (stage %q, err %v)", kind, stage, err))
 				t.Fatalf("ill-formed query (%s) passed validation (stage %q, err %v):\n%s (replay %s)", kind, stage, err, ill, p)
@@ -652,6 +734,18 @@ func TestAdvertised(t *testing.T) {
 			rec.Case(string(sb)+ill, under, "illformed:"+kind)
 			if under {
 				rec.Sample("illformed-"+kind, map[string]interface{}{"query": ill})
+			}
+			if sf, ok := model.illSharedFragment(t); ok {
+				c.Ill, c.IllKind = sf, "shared-fragment"
+				stage, err := validate(b, sf)
+				if stage == "parse" {
+					t.Fatalf("harness: shared-fragment variant does not parse: %v\n%s", err, sf)
+				}
+				if err == nil || stage == "execute" {
+					p := rec.Violate("TestAdvertised", c, fmt.Sprintf("illformed-accepted: shared-fragment variant passed validation (stage %q, err %v)", stage, err))
+					t.Fatalf("ill-formed query (fragment valid at its first spread, unknown field at the second) passed validation (stage %q, err %v):\n%s (replay %s)", stage, err, sf, p)
+				}
+				rec.Case(string(sb)+sf, true, "illformed:shared-fragment")
 			}
 		}
 	})
@@ -675,7 +769,7 @@ func TestReplay(t *testing.T) {
 		t.Fatalf("introspection failed: %v", err)
 	}
 	if c.Ill != "" {
-		if _, stage, err := exec(b, c.Ill); err == nil || stage == "execute" {
+		if stage, err := validate(b, c.Ill); err == nil || stage == "execute" {
 			rec.Violate("TestReplay", c, "ill-formed query passed validation")
 			t.Fatalf("ill-formed query passed validation: %s", c.Ill)
 		}
